@@ -132,12 +132,22 @@ def run(chk):
         if got != want:
             prop_fail.append({"op": ops[i], "then": o, "got": got, "want": want, "clause": "round trip is not the identity"})
 
+    # Pack appends to its destination: the packed bytes must not depend on what the destination's spare capacity held
+    # (seeded change C17-r8: in-place packing that only ORs into the first byte of a reused buffer)
+    d_idx = [i for i, (k, w, g) in enumerate(meta) if k == "pack" and (thorough or i % 5 == 0)]
+    d_res = common.chunked_parallel(pair.impl, ["pack-dirty" + ops[i][4:] for i in d_idx], workers=8, chunk=20000)
+    for i, got in zip(d_idx, d_res):
+        if got != impl[i] or got != spec[i]:
+            prop_fail.append({"op": "pack-dirty" + ops[i][4:], "impl": got, "spec_layout": spec[i], "pack_into_fresh_buffer": impl[i],
+                              "clause": "packed bytes depend on the garbage in the destination's spare capacity (Pack into a reused buffer)"})
+    dirty_checked = len(d_idx)
+
     cov.update({
         "obligations": pr["obligations"], "discharged": pr["discharged"], "axioms": pr["axioms"],
         "checker_cmd": "cd lean && lake build %s  (then `#print axioms` on each theorem; grep for sorry/admit/axiom/native_decide/bv_decide)" % MODULE,
         "trusted_base": TRUSTED_BASE,
         "forbidden_constructs": pr["forbidden_constructs"],
-        "evaluations": len(ops) + len(rt_ops), "distinct_nontrivial": len(nontrivial),
+        "evaluations": len(ops) + len(rt_ops) + dirty_checked, "dirty_destination_packs": dirty_checked, "distinct_nontrivial": len(nontrivial),
         "rule": "pack/unpack groups: all 2^8 and 4^8 value groups and all 1- and 2-byte groups (exhaustive); for w=3,4 every single-value and two-value group over zero/all-ones backgrounds, all uniform groups and period-2/4 patterns, plus seeded random groups; non-trivial = distinct group with at least one non-zero element",
         "exhaustive": False,
         "samples": [ops[0], ops[len(ops) // 3], ops[len(ops) // 2], ops[-1]],
